@@ -48,11 +48,12 @@ fn digest(d: &[u8]) -> String {
     if d.len() <= 24 {
         format!("={}", hexs(d))
     } else {
-        let mut h: u64 = 0;
+        let (mut a, mut s) = (0u64, 0u64);
         for b in d {
-            h = (h * 16777619 + u64::from(*b) + 1) % 4294967296;
+            a += u64::from(*b) + 1;
+            s += a;
         }
-        format!("#{}.{}", d.len(), h)
+        format!("#{a}.{s}")
     }
 }
 
@@ -705,7 +706,10 @@ fn prop_lru(c: &Case) -> Verdict {
             if r.is_err() {
                 return Verdict::fail("lru-put-panics", format!("op #{n}"));
             }
-            last_put.insert(op[1], (op[2], op[3] as usize, op[4..].to_vec()));
+            // objects that cannot ever fit the memory limit are ignored by design (documented)
+            if limit_arg == 0 || op.len() - 4 <= limit_arg {
+                last_put.insert(op[1], (op[2], op[3] as usize, op[4..].to_vec()));
+            }
         } else if op.len() >= 2 && op[0] == b'g' {
             let (p, o) = lru_key(op[1]);
             if let Some((k, csz)) = l.get(p, o, &mut buf) {
@@ -757,8 +761,9 @@ fn varint(mut n: u64, out: &mut Vec<u8>) {
 }
 
 fn rand_data(rng: &mut Rng, max: usize) -> Vec<u8> {
-    let lens = [0usize, 1, 2, 7, 8, 9, 30, 60, 127, 128, 129, 300, 700, 1500, 4000];
-    let n = (*rng.pick(&lens)).min(max);
+    let lens = [0usize, 1, 2, 7, 8, 9, 30, 60, 127, 128, 129, 300];
+    let big = [700usize, 1500, 4000];
+    let n = (if rng.chance(1, 16) { *rng.pick(&big) } else { *rng.pick(&lens) }).min(max);
     if rng.chance(1, 3) {
         rng.bytes(n)
     } else {
@@ -926,7 +931,7 @@ const CFG_POOL: [&str; 30] = [
 ];
 
 fn pick_cfgs(rng: &mut Rng) -> Vec<u8> {
-    let n = rng.range(3, 6);
+    let n = rng.range(2, 4);
     let mut v: Vec<&str> = Vec::new();
     for _ in 0..n {
         v.push(*rng.pick(&CFG_POOL));
@@ -937,8 +942,8 @@ fn pick_cfgs(rng: &mut Rng) -> Vec<u8> {
 fn pick_requests(rng: &mut Rng, n: usize) -> Vec<u8> {
     let len = rng.range(1, 40) as usize;
     match rng.below(6) {
-        0 => (0..n.min(250)).map(|i| i as u8).collect(),
-        1 => (0..n.min(250)).rev().map(|i| i as u8).collect(),
+        0 => (0..n.min(60)).map(|i| i as u8).collect(),
+        1 => (0..n).rev().take(60).map(|i| i as u8).collect(),
         2 => {
             // few distinct entries, many repetitions
             let a: Vec<u8> = (0..3).map(|_| rng.below(n as u64) as u8).collect();
@@ -946,8 +951,9 @@ fn pick_requests(rng: &mut Rng, n: usize) -> Vec<u8> {
         }
         3 => {
             // everything twice
-            let mut v: Vec<u8> = (0..n.min(120)).map(|i| i as u8).collect();
-            v.extend((0..n.min(120)).map(|i| i as u8));
+            let start = rng.below(n as u64) as usize;
+            let mut v: Vec<u8> = (start..n.min(start + 25)).map(|i| i as u8).collect();
+            v.extend((start..n.min(start + 25)).map(|i| i as u8));
             v
         }
         _ => (0..len).map(|_| rng.below(n as u64) as u8).collect(),
@@ -1219,7 +1225,7 @@ fn git_pack(rng: &mut Rng, serial: usize) -> Option<Vec<PEntry>> {
     let nfiles = rng.range(1, 5) as usize;
     let mut files: Vec<Vec<String>> = Vec::new();
     for _ in 0..nfiles {
-        let nlines = rng.range(3, 120) as usize;
+        let nlines = if rng.chance(1, 8) { rng.range(40, 120) } else { rng.range(3, 30) } as usize;
         files.push(
             (0..nlines)
                 .map(|_| {
@@ -1280,7 +1286,8 @@ fn git_pack(rng: &mut Rng, serial: usize) -> Option<Vec<PEntry>> {
         args.push("--thin");
         format!("refs/heads/main\n^refs/heads/main~{}\n", rng.range(1, ncommits as i64 - 1))
     } else {
-        "--all\n".to_string()
+        args.push("--all");
+        String::new()
     };
     let pack = git(&dir, &args, input.as_bytes());
     let raw = parse_pack(&pack);
